@@ -5,7 +5,8 @@ import json, os, subprocess, sys
 muts = [json.loads(l) for l in open(sys.argv[1])]
 fs, ln = sys.argv[2].rsplit(":", 1)
 prop = sys.argv[3] if len(sys.argv) > 3 else "all"
-WT = "/tmp/wt/mut"
+import os as _os
+WT = _os.environ.get("MUT_WT", "/tmp/wt/mut")
 subprocess.run(["git", "-C", WT, "checkout", "-q", "--", "."], check=True)
 for m in muts:
     if fs in m["file"] and str(m["line"]) == ln:
